@@ -59,6 +59,8 @@ type Contract struct {
 	PreferInt bool // verify in mathematical-integer mode first (callee contracts are mode-agnostic then)
 	Expand   []string // callees (display-name suffixes) whose body is expanded in this function although they have a contract
 	Trusted  bool
+	Models   map[string]bool // library components replaced by a deterministic-function model in this function (e.g. md4)
+	Deterministic bool // calls with equal scalar/string arguments return equal results (assumed, listed in the evidence)
 	Schema   string
 	File     string
 	Props    map[string]bool
@@ -77,7 +79,7 @@ type Contract struct {
 	Impls    []string        // keys of the implementing methods
 }
 
-var clauseHead = regexp.MustCompile(`^(extend|unroll-in|prefer-int|expand|abstract|keys|check|mode|ghost|requires|ensures|modifies|loop|bound|iface|maynil|inline|trusted|panics-if|nosafety|maxpaths|alias|decreases)\b(.*)$`)
+var clauseHead = regexp.MustCompile(`^(deterministic|model|extend|unroll-in|prefer-int|expand|abstract|keys|check|mode|ghost|requires|ensures|modifies|loop|bound|iface|maynil|inline|trusted|panics-if|nosafety|maxpaths|alias|decreases)\b(.*)$`)
 var tagRe = regexp.MustCompile(`^\s*\[([^\]]+)\]\s*(.*)$`)
 
 // ParseContractFile parses the //@ lines of one file. pkgPath is the import path of its package.
@@ -363,6 +365,15 @@ func (c *Contract) addClause(head, rest, where string) error {
 		c.Expand = append(c.Expand, strings.Fields(rest)...)
 	case "trusted":
 		c.Trusted = true
+	case "deterministic":
+		c.Deterministic = true
+	case "model":
+		if c.Models == nil {
+			c.Models = map[string]bool{}
+		}
+		for _, w := range strings.Fields(rest) {
+			c.Models[w] = true
+		}
 	case "nosafety":
 		c.NoSafety = true
 	case "maxpaths":
